@@ -276,8 +276,8 @@ def process (settled pending : Option ACert) (loc : Option Row) : Option Action 
         else some (.update c)
 
 /-- `newCertificateInfoFromAgglayerCertHeader` (block range from the metadata) -/
-def rowOfHeader (omitPrev : Bool) (c : ACert) : Row :=
-  { height := c.height, id := c.id, status := c.status, from_ := c.from_, to_ := c.to_, retry := 0,
+def rowOfHeader (omitPrev : Bool) (c : ACert) (retry : Nat := 0) : Row :=
+  { height := c.height, id := c.id, status := c.status, from_ := c.from_, to_ := c.to_, retry := retry,
     prev := if omitPrev then none else some c.prev, new := c.new }
 
 /-- `Start` up to the send loop: one pass of `CheckInitialStatus`; on an error the node is not up -/
@@ -296,7 +296,12 @@ def restart (s : Sys) : Sys × Bool :=
           | some l => if l.status = c.status then s.loc else setStatus s.loc l.id c.status
           | none => s.loc
         ({ s with loc := loc, up := true }, true)
-      | some (.insert c) => ({ s with loc := saveRow s.loc (rowOfHeader s.cfg.omitPrev c), up := true }, true)
+      | some (.insert c) =>
+        -- a certificate that replaces the node's own record at the same height keeps counting its retries
+        let retry := match lastRow s.loc with
+          | some l => if l.height = c.height then l.retry + 1 else 0
+          | none => 0
+        ({ s with loc := saveRow s.loc (rowOfHeader s.cfg.omitPrev c retry), up := true }, true)
 
 /-! ### operations -/
 
